@@ -46,6 +46,7 @@ type Contract struct {
 	Loops     map[int]*LoopSpec
 	PanicsIf  *Clause
 	Decreases *Clause
+	DecrList  []Clause // lexicographic measure for recursive functions
 	Trusted   bool // assumed, never verified (external / interface)
 	NoVerify  bool
 	Panics    string // "checked" (default) | "off"
@@ -381,15 +382,21 @@ func (db *SpecDB) LoadContractFile(path, defaultPkg string) error {
 					curLoop.Invariants = append(curLoop.Invariants, cl)
 				}
 			case "decreases":
+				if curLoop == nil {
+					for _, part := range splitTop(rest) {
+						cl, err := parseClause(l.n, part, false)
+						if err != nil {
+							return err
+						}
+						cur.DecrList = append(cur.DecrList, cl)
+					}
+					break
+				}
 				cl, err := parseClause(l.n, rest, false)
 				if err != nil {
 					return err
 				}
-				if curLoop != nil {
-					curLoop.Decreases = &cl
-				} else {
-					cur.Decreases = &cl
-				}
+				curLoop.Decreases = &cl
 			case "unroll":
 				if curLoop == nil {
 					return fail(l.n, "unroll outside loop")
